@@ -1049,7 +1049,82 @@ def g24_touch_shared_vertical_pair(rng):
     return (a, b) if rng.random() < 0.6 else (b, a)
 
 
+def g25_huge_offset_pair(rng):
+    """a small integer triangle (or quadrilateral) at an x offset near 2^52, inside a rectangle of the other
+    operand that it does not touch: every coordinate is an exact double, no crossing is computed, but any
+    arithmetic done in the coordinate type on such numbers (products near 2^54) rounds -- and rounds
+    differently for a different start vertex or direction of the same ring"""
+    X = rng.randint(1 << 52, (1 << 53) - 64)
+    if rng.random() < 0.3:
+        X = -X
+    k = rng.choice([3, 3, 3, 4])
+    while True:
+        pts = [(X + rng.randint(0, 3), rng.randint(1, 8)) for _ in range(k)]
+        if len(set(pts)) < k:
+            continue
+        ring = _hull(pts)
+        if len(ring) == k and _area2(ring + [ring[0]]) != 0:
+            break
+    ring = list(ring) + [ring[0]]
+    if rng.random() < 0.5:
+        ring.reverse()
+    a = [[ring]]
+    b = [[_rect(X - 6, -4, X + 10, 14, ccw=rng.random() < 0.7)]]
+    return (a, b) if rng.random() < 0.6 else (b, a)
+
+
+def g26_slanted_hole_pair(rng):
+    """a square with a hole that is not a rectangle (diamond or triangle), and a small polygon that lies in
+    the bounding box of the hole but (partly) in the material: both operands are single polygons"""
+    s = rng.choice([10, 12, 16])
+    c = s // 2
+    r = rng.randint(2, c - 1)
+    if rng.random() < 0.6:
+        hole = [(c - r, c), (c, c - r), (c + r, c), (c, c + r), (c - r, c)]
+    else:
+        hole = [(c - r, c - r), (c + r, c - r), (c - r, c + r), (c - r, c - r)]
+    if rng.random() < 0.5:
+        hole.reverse()
+    a = [[_rect(0, 0, s, s, ccw=rng.random() < 0.8), hole]]
+    half = Fraction(1, 2)
+    w = rng.choice([half, 1, 1, 2])
+    d = half * rng.randint(0, 1)         # on the box of the hole, or strictly inside it
+    x0 = rng.choice([c - r + d, c + r - w - d, c - half * w])
+    y0 = rng.choice([c - r + d, c + r - w - d, c - half * w])
+    b = [[_rect(x0, y0, x0 + w, y0 + w, ccw=rng.random() < 0.7)]]
+    return (a, b) if rng.random() < 0.5 else (b, a)
+
+
+def g27_diagonal_quad_pair(rng):
+    """a quadrilateral through two diagonally opposite corners of its bounding box (kite / sheared box) and
+    one to three unit squares placed inside that bounding box, some of them in the corners the quadrilateral
+    leaves empty: the box of one operand covers the box of the other although the regions barely overlap"""
+    W, H = rng.randint(6, 10), rng.randint(6, 10)
+    bx, by = rng.randint(W // 2 + 1, W - 1), rng.randint(1, H // 2 - 1)
+    dx, dy = rng.randint(1, W // 2 - 1), rng.randint(H // 2 + 1, H - 1)
+    quad = [(0, 0), (bx, by), (W, H), (dx, dy), (0, 0)]
+    flip = rng.random() < 0.5
+    if flip:
+        quad = [(W - x, y) for (x, y) in quad]
+    if rng.random() < 0.5:
+        quad.reverse()
+    k = rng.randint(0, 3)
+    quad = quad[k:-1] + quad[:k] + [quad[k]]
+    spots = [(W - 1, 0), (0, H - 1), (W - 2, 1), (1, H - 2)] if not flip else [(0, 0), (W - 1, H - 1), (1, 1), (W - 2, H - 2)]
+    spots += [(rng.randint(0, W - 1), rng.randint(0, H - 1)) for _ in range(3)]
+    chosen = []
+    for sp in rng.sample(spots, rng.randint(1, 3)):
+        if all(abs(sp[0] - q[0]) >= 2 or abs(sp[1] - q[1]) >= 2 for q in chosen):
+            chosen.append(sp)
+    a = [[_rect(x, y, x + 1, y + 1, ccw=rng.random() < 0.7)] for (x, y) in chosen]
+    b = [[quad]]
+    return (a, b) if rng.random() < 0.7 else (b, a)
+
+
 FAMILIES = {
+    "g27": g27_diagonal_quad_pair,
+    "g26": g26_slanted_hole_pair,
+    "g25": g25_huge_offset_pair,
     "g24": g24_touch_shared_vertical_pair,
     "g23": g23_ulp_slanted_pair,
     "g22": g22_plates_pair,
@@ -1075,7 +1150,7 @@ FAMILIES = {
     "g21": g21_overlap_after_inexact_cut_pair,
 }
 # families on which all arithmetic is exact by construction / usually exact / never exact
-EXACT_FAMILIES = {"g1", "g10", "g12", "g13", "g14", "g15", "g16", "g18", "g22"}
+EXACT_FAMILIES = {"g1", "g10", "g12", "g13", "g14", "g15", "g16", "g18", "g22", "g25"}
 # families whose operands stay exact when operands of different pairs (and results of operations) are mixed:
 # all edges axis-parallel
 CLOSED_EXACT_FAMILIES = {"g1", "g12", "g13", "g18"}
